@@ -5768,8 +5768,9 @@ GRreadchunk(int32  riid,   /* IN: access aid to GR */
 
     /* check if access id exists already */
     if (ri_ptr->img_aid == 0) {
-        /* now get access id, use write access */
-        if (GRIgetaid(ri_ptr, DFACC_WRITE) == FAIL)
+        /* now get access id; reading needs no more than read access (asking
+           for write access made the call fail on a file opened for reading) */
+        if (GRIgetaid(ri_ptr, DFACC_READ) == FAIL)
             HGOTO_ERROR(DFE_INTERNAL, FAIL);
     }
     else if (ri_ptr->img_aid == FAIL)
